@@ -18,7 +18,8 @@
 (*   bout        : outgoing BIO (units produced, not yet read by the pump) *)
 (*   hs, ok      : handshake stage, handshake complete                     *)
 (*   plain       : plaintext units of the current record not yet read      *)
-(*   txcn, rxcn  : close_notify sent / received;  dead : fatal error       *)
+(*   txcn, rxcn  : close_notify sent / received;  dead : fatal error;      *)
+(*   deof        : ... and the fatal error was the unexpected EOF           *)
 (* An engine call needs the COMPLETE next record (AEAD): with less it      *)
 (* answers want-read, or the EOF error when the BIO is at EOF.             *)
 (* Handshake flights: TLS 1.2  c->s F1, s->c F2, c->s F3, s->c F4;         *)
@@ -31,14 +32,32 @@
 (*   ok / b""  -> flush bout, return (receive: b"" -> EndOfStream)         *)
 (*   EOF error -> BrokenResourceError if standard_compatible else          *)
 (*                EndOfStream;  other SSL errors are re-raised             *)
+(* The flush is ONE step that empties bout (tls.py: one transport.send of  *)
+(* `_write_bio.read()`), however many records one engine call produced     *)
+(* (send of up to 13 full records = 208 KiB in the -simulate               *)
+(* configurations).  Named deviation FlushInPieces: an implementation may  *)
+(* hand bout to the transport in several transport.send() calls within the *)
+(* same pass; the observer accepts any number of "tsend" events, the       *)
+(* harness reassembles the records across the pieces, and what counts is   *)
+(* PendingOutputFlushed / OutputFlushedOnReturn: bout is empty whenever    *)
+(* the pump waits for input or returns.                                    *)
 (*                                                                         *)
 (* Environment (all nondeterminism): the application on either side        *)
-(* chooses its next call while it is idle (send of 0..3 units, receive     *)
+(* chooses its next call while it is idle (send of 0..13 units, receive    *)
 (* with max 1..3 units, aclose); the transport hands a parked side any     *)
 (* non-empty prefix of what is in flight (= all re-chunkings and           *)
 (* coalescings) or, at most MaxCut times, end-of-file although more is or  *)
 (* will be in flight (= truncation at that position); a closed transport   *)
 (* end reports end-of-file once drained.                                   *)
+(* Repeated observation of the end: an application whose receive() (or     *)
+(* send()) has raised keeps calling receive() / send(), at most MaxAfter   *)
+(* times, before it calls aclose().  Each such call is one more pass of    *)
+(* the pump against the engine as the end left it: after a truncation the  *)
+(* BIOs have seen EOF and the engine answers every read and write with the *)
+(* EOF error again (OpenSSL: a reason-less SSLEOFError from the second     *)
+(* time on) and unwrap with another SSL error; after the peer's            *)
+(* close_notify read keeps answering "zero" while write still works        *)
+(* (half-closed connection).                                               *)
 (*                                                                         *)
 (* Ghost state: pst / pbad = the observer P_Tls fed with the same events   *)
 (* the harness records from the real library; hist = the choices, hidden   *)
@@ -50,6 +69,7 @@ CONSTANTS V,          \* 12 or 13
           SCC, SCS,   \* subsets of BOOLEAN: standard_compatible of client / server
           BIG,        \* subset of BOOLEAN: TRUE = a unit of plaintext is a full 16384-byte record
           SendSizes, RecvSizes, MaxSend, MaxRecv, MaxCut,
+          MaxAfter,   \* receive / send calls of one side after its first call that raised
           CutFrom     \* {0} for model checking.  Only to spread the random walks of -simulate: a cut
                       \* is allowed from the cfg.cutfrom-th choice on (cfg.cutfrom \in CutFrom)
 
@@ -65,7 +85,7 @@ Min(a, b) == IF a < b THEN a ELSE b
 Rec(k, r, n) == << [k |-> k, r |-> r, i |-> 1, n |-> n], [k |-> k, r |-> r, i |-> 2, n |-> n] >>
 
 Engine0 == [hs |-> 0, ok |-> FALSE, bin |-> <<>>, ineof |-> FALSE, bout |-> <<>>, plain |-> 0,
-            rxcn |-> FALSE, txcn |-> FALSE, dead |-> FALSE, wr |-> 0]
+            rxcn |-> FALSE, txcn |-> FALSE, dead |-> FALSE, deof |-> FALSE, wr |-> 0]
 
 Emit(g, k, n) == [g EXCEPT !.bout = @ \o Rec(k, g.wr + 1, n), !.wr = @ + 1]
 RECURSIVE EmitApp1(_, _)
@@ -75,7 +95,10 @@ HeadRec(g) == g.bin[1]
 Consume(g) == [g EXCEPT !.bin = SubSeq(@, 3, Len(@))]
 Die(g) == [g EXCEPT !.dead = TRUE]
 R(res, g, val) == [res |-> res, g |-> g, val |-> val]
-NeedMore(g) == IF g.ineof THEN R("eof", Die(g), 0) ELSE R("wantread", g, 0)
+DieEOF(g) == [g EXCEPT !.dead = TRUE, !.deof = TRUE]
+NeedMore(g) == IF g.ineof THEN R("eof", DieEOF(g), 0) ELSE R("wantread", g, 0)
+\* a call on a dead engine: the EOF error again if that is what killed it
+Dead(g) == R(IF g.deof THEN "eof" ELSE "err", g, 0)
 
 (****************************** engine calls *******************************)
 \* SSLObject.do_handshake
@@ -110,7 +133,7 @@ Rd1(g, m) ==
          [] h.k = "cn" -> R("zero", [Consume(g) EXCEPT !.rxcn = TRUE], 0)
          [] OTHER -> R("err", Die(g), 0)
 Rd(g, m) ==
-  IF g.dead THEN R("err", g, 0)
+  IF g.dead THEN Dead(g)
   ELSE IF g.plain > 0 THEN RdData(g, m)
   ELSE IF g.rxcn THEN R("zero", g, 0)
   ELSE IF HeadComplete(g) /\ HeadRec(g).k = "tk" THEN Rd1(Consume(g), m)
@@ -118,7 +141,8 @@ Rd(g, m) ==
 
 \* SSLObject.write(n units): memory BIOs never push back
 Wr(g, n, big) ==
-  IF g.dead \/ g.txcn THEN R("err", g, 0)
+  IF g.dead THEN Dead(g)
+  ELSE IF g.txcn THEN R("err", g, 0)
   ELSE IF n = 0 THEN R("ok", g, 0)
   ELSE IF big THEN R("ok", EmitApp1(g, n), n)
   ELSE R("ok", Emit(g, "app", n), n)
@@ -157,7 +181,7 @@ Pump(x, g, op, arg) ==
                             out |-> IF cfg.sc[x] THEN "broken" ELSE "eos", val |-> 0]
        [] OTHER -> [g |-> r.g, sent |-> <<>>, out |-> "other", val |-> 0]
 
-Task0 == [pc |-> "new", st |-> "rest", arg |-> 0, nsend |-> 0, nrecv |-> 0, failed |-> FALSE,
+Task0 == [pc |-> "new", st |-> "rest", arg |-> 0, nsend |-> 0, nrecv |-> 0, nafter |-> 0, failed |-> FALSE,
           wrap |-> "", endr |-> "", closer |-> "", got |-> 0]
 
 EndEv(x, op, res, n, max) ==
@@ -176,11 +200,14 @@ TaskAfter(t, op, arg, pr) ==
   IF pr.out = "park" THEN [t EXCEPT !.pc = op, !.st = "park", !.arg = arg]
   ELSE CASE op = "wrap" -> [t EXCEPT !.pc = IF pr.out = "ok" THEN "idle" ELSE "done", !.st = "rest",
                                      !.wrap = pr.out]
-         [] op = "send" -> [t EXCEPT !.pc = "idle", !.st = "rest", !.nsend = @ + 1,
-                                     !.failed = @ \/ pr.out # "ok"]
+         [] op = "send" -> IF t.failed
+                           THEN [t EXCEPT !.pc = "idle", !.st = "rest", !.nafter = @ + 1]
+                           ELSE [t EXCEPT !.pc = "idle", !.st = "rest", !.nsend = @ + 1,
+                                          !.failed = pr.out # "ok"]
          [] op = "recv" -> IF pr.out = "ok"
                            THEN [t EXCEPT !.pc = "idle", !.st = "rest", !.nrecv = @ + 1, !.got = @ + pr.val]
-                           ELSE [t EXCEPT !.pc = "idle", !.st = "rest", !.failed = TRUE, !.endr = pr.out]
+                           ELSE [t EXCEPT !.pc = "idle", !.st = "rest", !.failed = TRUE, !.endr = pr.out,
+                                          !.nafter = IF t.failed THEN @ + 1 ELSE @]
          [] op = "close" -> [t EXCEPT !.pc = "done", !.st = "rest", !.closer = pr.out]
 
 \* side x continues (after input / EOF was fed into engine g, or with a new call); restx = what
@@ -221,13 +248,18 @@ Begin(x) ==
 
 Idle(x) == T[x].pc = "idle" /\ T[x].st = "rest"
 
+\* while the stream is healthy at most MaxSend / MaxRecv calls; once a call has raised, at most
+\* MaxAfter further send / receive calls (the repeated observation of the end)
+MayCall(x, n, max) == Idle(x) /\ IF T[x].failed THEN T[x].nafter < MaxAfter ELSE n < max
+
 Send(x) == \E n \in SendSizes :
-  /\ Idle(x) /\ ~T[x].failed /\ T[x].nsend < MaxSend
+  /\ MayCall(x, T[x].nsend, MaxSend)
   /\ Run(x, E[x], "send", n, << StartEv(x, "send", n) >>, Choice(x, "send", n), pipe[x])
   /\ UNCHANGED <<eofd, ncut, cfg>>
 
-Recv(x) == \E m \in RecvSizes :
-  /\ Idle(x) /\ ~T[x].failed /\ T[x].nrecv < MaxRecv
+\* (a receive after the end returns no data, so its max_bytes is immaterial: the smallest size only)
+Recv(x) == \E m \in (IF T[x].failed THEN {CHOOSE k \in RecvSizes : \A j \in RecvSizes : k <= j} ELSE RecvSizes) :
+  /\ MayCall(x, T[x].nrecv, MaxRecv)
   /\ Run(x, E[x], "recv", m, << StartEv(x, "recv", m) >>, Choice(x, "recv", m), pipe[x])
   /\ UNCHANGED <<eofd, ncut, cfg>>
 
@@ -305,7 +337,7 @@ Conservation ==
                            + PlainIn(E[Peer(x)].bout)
 
 TypeOK == /\ \A x \in TSides : T[x].st \in {"rest", "park"} /\ E[x].hs \in 0..3
-          /\ ncut \in 0..MaxCut
+          /\ ncut \in 0..MaxCut /\ \A x \in TSides : T[x].nafter \in 0..MaxAfter
 
 (****************************** scenario output ****************************)
 \* compact, to keep the emitted lines short: choices are tuples <<"o", side, op, units>>,
